@@ -26,6 +26,7 @@ from harness.common import CORPUS_DIR, ROOT, aeic_setup, close, f2u, fs2u, u2f, 
 PID = 'C12'
 F_HUM = 'C12-bffm2-humidity-reference'
 F_MEEM = 'C12-meem-pressure-coefficient-unbounded'
+F_OVF = 'C12-loglog-fit-overflows-for-near-equal-flows'
 RTOL = 1e-9
 
 RULE = ('cases = (stream, certification data set, vector of evaluation points); certification sets are drawn from '
@@ -249,6 +250,10 @@ def cases_nox(rng, impl, n):
         elif fam == 'narrow':  # keep the log-log slope physical (|slope| < ~3), else 10**x overflows legitimately
             ei = _fl(float(10 ** rng.uniform(0.0, 1.5)) * (1.0 + rng.uniform(-0.03, 0.03, 4)))
         else:
+            ei = _fl(10 ** rng.uniform(-1.0, 2.0, 4))
+        if k % 13 == 5:  # calibration flows within 0.3 % of each other, unrelated certification indices: slopes of hundreds
+            fam = 'near_equal_extreme'
+            cal = [cal[0] * (1.0 + 0.001 * j) for j in range(4)]
             ei = _fl(10 ** rng.uniform(-1.0, 2.0, 4))
         if k % 11 == 7:  # all four calibration flows equal (positive): the fit is undetermined, the result must stay finite
             fam, cal = 'equal_all', [cal[0]] * 4
@@ -575,7 +580,14 @@ def check_nox(ctx, impl, case, outs):
     if abs(u2f(asis['slope'])) <= 30.0:  # beyond that 10**(slope * dlog) may legitimately overflow a double
         rep.clause('nox_finite_nonneg', all(_finite_nonneg(x) for x in comps), 'non-finite or negative component')
     else:
-        ctx.count('nox:extreme_slope_finiteness_not_required')
+        # calibration flows within a fraction of a percent of each other and certification indices decades apart: the log-log line
+        # has a slope of hundreds and 10**(slope * dlog) overflows a double above the calibration range — mathematically finite,
+        # numerically `inf`: the open finding, and nothing else (a negative or NaN component is still a violation)
+        ctx.count('nox:extreme_slope')
+        fin = all(_finite_nonneg(x) for x in comps)
+        only_inf = all(bool(np.all(np.nan_to_num(np.asarray(x, dtype=float), nan=-1.0, posinf=1.0) >= 0.0)) for x in comps)
+        rep.clause('nox_finite_nonneg', fin, f'slope {u2f(asis["slope"])!r}: NOxEI {_fl(np.asarray(r.NOxEI, dtype=float))[:6]}',
+                   finding=F_OVF if (not fin and only_inf) else None)
     # speciation / categories follow the model (thresholds computed from identical expressions: exact)
     cats = list(asis['cat'])
     for nm, arr in (('noProp', r.noProp), ('no2Prop', r.no2Prop), ('honoProp', r.honoProp)):
@@ -583,12 +595,12 @@ def check_nox(ctx, impl, case, outs):
     tot = np.asarray(r.noProp) + np.asarray(r.no2Prop) + np.asarray(r.honoProp)
     rep.clause('speciation_sums_to_one', bool(np.all(np.abs(tot - 1.0) <= 1e-12)), f'{_fl(tot)[:4]}')
     s = np.asarray(r.NOEI) + np.asarray(r.NO2EI) + np.asarray(r.HONOEI)
-    i = _first_bad(s, nox, 1e-12)
+    i = _first_bad(s, nox, 1e-12, 1e-300)   # (absolute floor: subnormal indices carry no twelve digits)
     rep.clause('nox_components_sum', i is None, '' if i is None else f'index {i}: {float(s[i])!r} vs {float(nox[i])!r}')
     # linear scaling in the certification indices
     c = case.get('c', 2.0)
     r2 = impl.BFFM2_EINOx(ff, impl.tmv([c * e for e in ei]), impl.tmv(cal), T, P)
-    i = _first_bad(r2.NOxEI, c * nox, 1e-6 if narrow else 1e-8)
+    i = _first_bad(r2.NOxEI, c * nox, 1e-6 if narrow else 1e-8, 1e-300)
     rep.clause('nox_scales_linearly', i is None, '' if i is None else f'c={c!r} index {i}: {float(r2.NOxEI[i])!r} vs {c * float(nox[i])!r}')
     # reference conditions: at sea-level static ISA the certification data must be reproduced (log-linear data: exactly)
     lx, ly = np.log10(cal), np.log10(ei)
